@@ -57,7 +57,7 @@ CHECKS.update({
 CHECKS.update({
  "C13": dict(engine="E1-sqlsim", level="exploration", ref="4 (C13), 2.3 (E1)",
    technique="deterministic simulation: seeded histories with VACUUM at arbitrary points (any number of times, with or without reopen), table contents compared with the reference model immediately before and after every VACUUM and at every later read",
-   text="Seeded histories of committed and rolled-back inserts and deletes with VACUUM at arbitrary points; the state read by a fresh transaction just before and just after each VACUUM must equal the model, later sessions read correctly and the database stays usable. With the open findings D14/D29/V1 the explored region is single-table worlds without UPDATE in which no delete was rolled back; most VACUUMs in it do free bytes (counted)."),
+   text="Seeded histories of committed and rolled-back inserts and deletes with VACUUM at arbitrary points; the state read by a fresh transaction just before and just after each VACUUM must equal the model, later sessions read correctly and the database stays usable. After the repairs of D14, D29, V1, V2, L1 and D6 the explored region has one or two tables, rolled-back deletes, DDL (CREATE / DROP in committed and rolled-back transactions), sessions whose transaction VACUUM aborted (they must be refused afterwards) and a whole-file page audit after VACUUM (no page of a dropped or never-committed relation remains allocated); UPDATE stays outside (open findings D5/D7). Most VACUUMs do free bytes (counted)."),
  "C15": dict(engine="E1-sqlsim", level="exploration", ref="4 (C15), 2.3 (E1)",
    technique="deterministic simulation: seeded DDL-heavy histories (CREATE TABLE / CREATE UNIQUE INDEX / DROP TABLE inside committed and rolled-back transactions, name reuse, reopen) with name resolution and table shapes compared against a versioned-catalog reference model",
    text="Seeded histories interleaving CREATE TABLE, CREATE UNIQUE INDEX and DROP TABLE with DML on the same and other tables, in autocommit, in committed and in rolled-back transactions, with reuse of dropped names and reopen; every later statement must resolve names exactly as the model's versioned catalog does and other tables stay unchanged. ALTER TABLE is covered only by the reproducers of open findings D16/D17."),
